@@ -3327,6 +3327,7 @@ static ZBUFF_DCtx* ZBUFF_createDCtx(void)
     if (zbc==NULL) return NULL;
     memset(zbc, 0, sizeof(*zbc));
     zbc->zc = ZSTD_createDCtx();
+    if (zbc->zc == NULL) { free(zbc); return NULL; }
     zbc->stage = ZBUFFds_init;
     return zbc;
 }
